@@ -208,6 +208,11 @@ def second_opinion(pid, mod, prog, rep, tier, config):
                 resolved.append(o)
             else:
                 out.append(o)
+                # ... or the second view found the sites and something wrong at them: say what (the lost anchor alone names no construct)
+                for x in b:
+                    if x.status == VIOLATION and x.key not in keys_a_viol and 'anchor-lost' not in x.key and x.key not in {y.key for y in out}:
+                        x.detail = '[on the view with helper functions inlined] ' + (x.detail or '')
+                        out.append(x)
             continue
         # an ordinary violation: the same obligation (same key) is discharged on the second view, and the second view reports
         # no other violation of that rule in that function (site ordinals may shift between the views)
